@@ -405,6 +405,38 @@ func (fx *Fx) runLoop(st *State, lp *loopParts) {
 		}
 	}
 	// 5. after the loop
+	if fx.tailStmt != nil && fx.tailStmt == lp.node && !c.dry {
+		// the loop is the last statement of the function (at most a bare return follows): every way out of the loop
+		// returns on its own, so that postconditions are checked per path instead of on a merged state
+		for _, x := range append([]*State{exitSt}, jc.breaks...) {
+			if x != nil && !x.dead {
+				if lp.keyObj != nil {
+					delete(x.vars, lp.keyObj)
+				}
+				fx.doReturn(x)
+			}
+		}
+		fx.kill(st)
+		return
+	}
+	if fx.pathMode && !c.dry {
+		// one way out of the loop per run
+		var outs []*State
+		for _, x := range append([]*State{exitSt}, jc.breaks...) {
+			if x != nil && !x.dead {
+				outs = append(outs, x)
+			}
+		}
+		if len(outs) == 0 {
+			fx.kill(st)
+			return
+		}
+		*st = *outs[fx.decide(len(outs))]
+		if lp.keyObj != nil {
+			delete(st.vars, lp.keyObj)
+		}
+		return
+	}
 	after := mergeStates(c, append([]*State{exitSt}, jc.breaks...))
 	*st = *after
 	if lp.keyObj != nil && !st.dead {
